@@ -779,6 +779,12 @@ class IdFamily:
         self.add(jobs, "moved", doc_yaml(dict(self.case, rs_under_pipeline=True)), "moved-under-pipeline", inspect=True)
         muts = mutations(self.case["spec"], rng)
         rng.shuffle(muts)
+        if muts:
+            # a run_space block at BOTH accepted placements (top level and under pipeline:), with different plans: whichever the
+            # loader prefers, `inspect` and the trace must speak of the same plan
+            both = doc_yaml(self.case)
+            both["pipeline"] = dict(both["pipeline"], run_space=rs_block_yaml(muts[0][1]))
+            self.add(jobs, "both", both, "both-placements", inspect=True)
         for nm, s in muts[:n_mut]:
             self.add(jobs, "mut-" + nm, doc_yaml(dict(self.case, spec=s)), "mutation", spec=s, inspect=True)
 
@@ -885,6 +891,12 @@ class IdFamily:
                     ck.fail_input("C09:inputs-id:fingerprint-digest", "fingerprint digest is not the sha256 of the referenced file", rep({"yaml": text}))
                 if fp1.get("digest", {}).get("sha256") == fp0.get("digest", {}).get("sha256"):
                     ck.fail_input("C09:inputs-id:fingerprint-digest", "fingerprint digest unchanged after the file content changed", rep({"yaml": text}))
+            elif kind == "both-placements":
+                ins = self.inspect_id(res, vname)
+                if paths_agree and ins != st["run_space_spec_id"]:
+                    ck.fail_input("C09:spec-id:inspect-vs-trace:run_space-at-both-placements",
+                                  "run_space both at the top level and under pipeline: (different plans): `semantiva inspect` prints %s, the trace carries %s"
+                                  % (str(ins)[:16], st["run_space_spec_id"][:16]), rep({"yaml": text, "kind": "inspect"}))
             # inspect output across cosmetic variants (only meaningful once both paths agree)
             if kind in ("cosmetic", "defaults-explicit", "moved-under-pipeline"):
                 ins = self.inspect_id(res, vname)
